@@ -622,6 +622,14 @@ func rFailuresKept(w *World, r *Report, prop string) {
 					if e == errV {
 						return true
 					}
+					// single exit: the failures of the function meet in one variable that is recorded once
+					if phi, ok := e.(*ssa.Phi); ok {
+						for _, l := range phiLeaves(phi, map[ssa.Value]bool{}) {
+							if l == errV {
+								return true
+							}
+						}
+					}
 				}
 				return false
 			}
@@ -2050,25 +2058,41 @@ func rEveryDependencyAnEdge(id string) func(w *World, r *Report) {
 			return isCh
 		}
 		n := 0
-		eachInstr(fn, func(in ssa.Instruction) {
-			ret, ok := in.(*ssa.Return)
-			if !ok {
-				return
-			}
-			inBody := false
-			for _, h := range loopHeaders(fn) {
-				loop := naturalLoop(h)
-				for _, sc := range h.Succs {
-					if loop[sc] && sc.Dominates(ret.Block()) {
-						inBody = true
+		// the early exits: edges that leave a loop from its body (not through the header's own test), whether they
+		// lead to a return or to a single exit behind the loop
+		type exitEdge struct {
+			b *ssa.BasicBlock
+			k int
+		}
+		seen := map[exitEdge]bool{}
+		var exits []exitEdge
+		for _, h := range loopHeaders(fn) {
+			loop := naturalLoop(h)
+			for b := range loop {
+				if b == h {
+					continue
+				}
+				for k, sc := range b.Succs {
+					if !loop[sc] && !seen[exitEdge{b, k}] {
+						seen[exitEdge{b, k}] = true
+						exits = append(exits, exitEdge{b, k})
 					}
 				}
 			}
-			if !inBody {
-				return
+		}
+		sort.Slice(exits, func(i, j int) bool {
+			if exits[i].b.Index != exits[j].b.Index {
+				return exits[i].b.Index < exits[j].b.Index
+			}
+			return exits[i].k < exits[j].k
+		})
+		for _, e := range exits {
+			facts := append([]Fact(nil), factsAt(e.b)...)
+			if iff, ok := e.b.Instrs[len(e.b.Instrs)-1].(*ssa.If); ok {
+				facts = append(facts, condFacts(iff.Cond, e.k == 0, iff)...)
 			}
 			good := false
-			for _, f := range factsAt(ret.Block()) {
+			for _, f := range facts {
 				if f.Y == nil {
 					continue
 				}
@@ -2092,8 +2116,13 @@ func rEveryDependencyAnEdge(id string) func(w *World, r *Report) {
 				}
 			}
 			n++
-			ru.Check(good, "TaskDependsOn/early-return", w.IPos(ret), "retrieval error or duplicate edge", "TaskDependsOn gives up on a dependency for a reason other than a retrieval error or a duplicate: the edge is never recorded, so a cycle through it (a task depending on itself, say) is not seen by the cycle check and is not reported as ErrorGraphHasCycle")
-		})
+			at := e.b.Succs[e.k]
+			pos := w.Pos(fn.Pos())
+			if len(at.Instrs) > 0 {
+				pos = w.IPos(at.Instrs[len(at.Instrs)-1])
+			}
+			ru.Check(good, "TaskDependsOn/early-return", pos, "retrieval error or duplicate edge", "TaskDependsOn gives up on a dependency for a reason other than a retrieval error or a duplicate: the edge is never recorded, so a cycle through it (a task depending on itself, say) is not seen by the cycle check and is not reported as ErrorGraphHasCycle")
+		}
 		if n == 0 {
 			ru.Bad("TaskDependsOn/early-return", w.Pos(fn.Pos()), "no error path found in TaskDependsOn")
 		}
